@@ -18,6 +18,11 @@ namespace Tmv.MempoolLock
 returns as soon as the request is queued, answers arrive later in FIFO order, `FlushSync` returns
 when everything queued before it has been answered -/
 inductive Ver | v0 | v1 | v0a
+  /-- `v0g` = mempool v0 over a general ABCI connection: a `CheckTxAsync` call may block for a
+  while (holding the read lock) and is then either answered while it blocks (local client) or
+  returns with the request queued and is answered later in any order (socket/gRPC clients; a full
+  request queue makes the call block first). `v0` and `v0a` are the two extreme schedules. -/
+  | v0g
   deriving DecidableEq, Repr
 
 /-- checker program counter -/
@@ -25,6 +30,7 @@ inductive KPC
   | wantR      -- spawned, has not passed the read-locked prelude
   | atGate     -- the CheckTx request is on the connection (started, not answered): in flight
   | wantAdd    -- v1: answered, waiting for the exclusive lock to add the tx
+  | queued     -- v0g: the call has returned (read lock released), the request is unanswered: in flight
   | done
   deriving DecidableEq, Repr
 
@@ -62,6 +68,8 @@ inductive Ev
   | relCommit               -- commit answered (commitDone); Update runs
   | relRecheck (j : Nat)
   | handleRecheck
+  | retCheck (i : Nat)      -- v0g: CheckTxAsync returns with the request queued (read lock released)
+  | retRecheck              -- v0g: the recheck CheckTxAsync returns with the request queued; Update goes on
   deriving DecidableEq, Repr
 
 def kpc (s : MS) (i : Nat) : Option KPC := (s.chk.find? (·.1 = i)).map (·.2)
@@ -85,6 +93,7 @@ def step (v : Ver) (s : MS) : Ev → Option MS
       | .v0 => some { setK s i .atGate with readers := s.readers + 1 }   -- RLock kept
       | .v1 => some (setK s i .atGate)                                    -- RLock released again
       | .v0a => some { setK s i .atGate with queue := s.queue ++ [(false, i)] }  -- queued, RLock released
+      | .v0g => some { setK s i .atGate with readers := s.readers + 1 }
     else none
   | .relCheck i =>
     if kpc s i = some .atGate then
@@ -95,6 +104,8 @@ def step (v : Ver) (s : MS) : Ev → Option MS
         if s.queue.head? = some (false, i) then
           some { setK s i .done with pool := s.pool + grow i, queue := s.queue.tail }
         else none
+      | .v0g => some { setK s i .done with readers := s.readers - 1, pool := s.pool + grow i }
+    else if v = .v0g ∧ kpc s i = some .queued then some { setK s i .done with pool := s.pool + grow i }
     else none
   | .addCheck i =>
     if v = .v1 ∧ kpc s i = some .wantAdd ∧ lockFree s then some { setK s i .done with pool := s.pool + grow i }
@@ -106,6 +117,7 @@ def step (v : Ver) (s : MS) : Ev → Option MS
       | .v0 => some { s with cpc := .flushGate, writer := true }
       | .v1 => some { s with cpc := .flushGate }            -- Lock, then FlushAppConn unlocks
       | .v0a => some { s with cpc := .flushGate, writer := true }
+      | .v0g => some { s with cpc := .flushGate, writer := true }
     else none
   | .relFlush =>
     if s.cpc = .flushGate then
@@ -113,6 +125,8 @@ def step (v : Ver) (s : MS) : Ev → Option MS
       | .v0 => some { s with cpc := .commitGate }
       | .v1 => some { s with cpc := .wantRelock }
       | .v0a => if s.queue = [] then some { s with cpc := .commitGate } else none  -- FlushSync returns
+      | .v0g =>
+        if (s.chk.all fun p => p.2 != .queued) ∧ s.rechecks = [] then some { s with cpc := .commitGate } else none
     else none
   | .relockCommit =>
     if v = .v1 ∧ s.cpc = .wantRelock ∧ lockFree s then some { s with cpc := .commitGate, writer := true }
@@ -132,6 +146,9 @@ def step (v : Ver) (s : MS) : Ev → Option MS
         some { s with cpc := .idle, writer := false,
                       queue := s.queue ++ (List.range s.pool).map (fun k => (true, k + s.nextRecheck)),
                       nextRecheck := s.nextRecheck + s.pool }
+      | .v0g =>
+        if s.pool = 0 then some { s with cpc := .idle, writer := false }
+        else some { s with cpc := .recheckGate s.nextRecheck (s.pool - 1), nextRecheck := s.nextRecheck + s.pool }
     else none
   | .relRecheck j =>
     match v with
@@ -148,8 +165,27 @@ def step (v : Ver) (s : MS) : Ev → Option MS
       else none
     | .v0a =>
       if s.queue.head? = some (true, j) then some { s with queue := s.queue.tail } else none
+    | .v0g =>
+      match s.cpc with
+      | .recheckGate cur left =>
+        if j = cur then
+          if left = 0 then some { s with cpc := .idle, writer := false }
+          else some { s with cpc := .recheckGate (cur + 1) (left - 1) }
+        else if j ∈ s.rechecks then some { s with rechecks := s.rechecks.filter (· ≠ j) } else none
+      | _ => if j ∈ s.rechecks then some { s with rechecks := s.rechecks.filter (· ≠ j) } else none
   | .handleRecheck =>
     if v = .v1 ∧ 0 < s.handle ∧ lockFree s then some { s with handle := s.handle - 1 } else none
+
+  | .retCheck i =>
+    if v = .v0g ∧ kpc s i = some .atGate then some { setK s i .queued with readers := s.readers - 1 } else none
+  | .retRecheck =>
+    if v = .v0g then
+      match s.cpc with
+      | .recheckGate cur left =>
+        if left = 0 then some { s with cpc := .idle, writer := false, rechecks := s.rechecks ++ [cur] }
+        else some { s with cpc := .recheckGate (cur + 1) (left - 1), rechecks := s.rechecks ++ [cur] }
+      | _ => none
+    else none
 
 def run (v : Ver) : MS → List Ev → Option MS
   | s, [] => some s
@@ -173,6 +209,17 @@ def noCheckBeforeRecheck : List (Bool × Nat) → Bool
   | [] => true
   | (true, _) :: r => noCheckBeforeRecheck r
   | (false, _) :: r => r.all fun x => !x.1
+
+/-- a new-transaction check is on the connection: the call is blocking or has returned unanswered -/
+def checkInFlightG (s : MS) : Bool := s.chk.any fun p => p.2 == .atGate || p.2 == .queued
+
+/-- the commit window on a general connection: from the commit request until the last recheck
+request of that block has been issued to the connection (which answers in order) -/
+def inCommitWindow (s : MS) : Bool :=
+  match s.cpc with
+  | .commitGate => true
+  | .recheckGate _ _ => true
+  | _ => false
 
 /-- the property's last sentence as a state predicate: inside the window no new-transaction check
 is in flight, and none can start -/
